@@ -1,5 +1,6 @@
 import BeyondVerif.Lemmas.Calendar
 import BeyondVerif.Generated.Sgp4BetaR
+import BeyondVerif.Generated.Sgp4WrapBind
 import Mathlib.Tactic.LinearCombination
 import Mathlib.Tactic.NormNum
 import Mathlib.Tactic.FieldSimp
@@ -122,6 +123,87 @@ theorem time_resolution (us : Nat) (s : ℝ) (hs : |s - ((utcFields us).secUs : 
   push_cast
   rw [abs_lt] at hs ⊢
   constructor <;> linarith [hs.1, hs.2]
+
+/-! ### The wrapper as a state machine: replies do not depend on the history -/
+
+/-- what a kept satellite record must satisfy: it was built by the setter from SOME values with the remembered key -/
+def BoundInv {V Key Lines Sat K : Type} (m : Machine V Key Lines Sat K) (b : Option (Bound Key Sat)) : Prop :=
+  ∀ bb, b = some bb → ∃ v0, bb.key = m.stateKey v0 ∧ bb.sat = m.twoline2rv (m.regen v0)
+
+theorem step_spec {V Key Lines Sat K : Type} [DecidableEq Key] (m : Machine V Key Lines Sat K)
+    (hkey : ∀ v v', m.stateKey v = m.stateKey v' →
+      ∀ f, m.propagate (m.twoline2rv (m.regen v)) f = m.propagate (m.twoline2rv (m.regen v')) f)
+    (b : Option (Bound Key Sat)) (hb : BoundInv m b) (v : V) (us : Nat) :
+    (m.step b v us).2.2 = m.toWrapper.run v us ∧ BoundInv m (some (m.step b v us).1) := by
+  cases b with
+  | none =>
+    refine ⟨rfl, ?_⟩
+    intro bb h
+    exact ⟨v, by cases h; rfl, by cases h; rfl⟩
+  | some bb =>
+    obtain ⟨v0, hk, hs⟩ := hb bb rfl
+    by_cases hne : m.stateKey v ≠ bb.key
+    · have e : m.step (some bb) v us = (m.bind v, true, m.toWrapper.run v us) := by
+        simp only [Machine.step, Machine.bind, Wrapper.run]
+        rw [if_pos hne]
+      rw [e]
+      refine ⟨rfl, ?_⟩
+      intro b' h
+      exact ⟨v, by cases h; rfl, by cases h; rfl⟩
+    · have heq : m.stateKey v = bb.key := not_not.mp hne
+      have e : m.step (some bb) v us = (bb, false, ((m.propagate bb.sat (utcFields us)).1 ++ (m.propagate bb.sat (utcFields us)).2).map m.scale) := by
+        simp only [Machine.step]
+        rw [if_neg hne]
+      rw [e]
+      refine ⟨?_, ?_⟩
+      · simp only [Wrapper.run]
+        rw [hs, hkey v0 v (by rw [← hk, heq])]
+      · intro b' h
+        exact ⟨v0, by cases h; exact hk, by cases h; exact hs⟩
+
+/-- Clause "returns … the state given by the reference for that TLE", for a MUTABLE orbit: whatever in-place edits and
+propagations came before (any history, any record already kept), every reply is the reply of a fresh propagator given the
+values the orbit holds at that call — provided the key `Sgp4._state` compares determines what the library answers for the
+regenerated text (`hkey`; its syntactic side is `bind_key_covers_regen`, its numeric side — label fields do not move the
+state — is an oracle family). -/
+theorem history_reply_eq_fresh {V Key Lines Sat K : Type} [DecidableEq Key] (m : Machine V Key Lines Sat K)
+    (hkey : ∀ v v', m.stateKey v = m.stateKey v' →
+      ∀ f, m.propagate (m.twoline2rv (m.regen v)) f = m.propagate (m.twoline2rv (m.regen v')) f) :
+    ∀ (ops : List (Op V)) (b : Option (Bound Key Sat)) (v : V), BoundInv m b →
+      ∀ x ∈ m.history b v ops, x.2.2 = m.toWrapper.run x.1 x.2.1 := by
+  intro ops
+  induction ops with
+  | nil => intro b v _ x hx; simp [Machine.history] at hx
+  | cons op rest ih =>
+    intro b v hb x hx
+    cases op with
+    | edit f => exact ih b (f v) hb x (by simpa [Machine.history] using hx)
+    | propagate us =>
+      obtain ⟨h1, h2⟩ := step_spec m hkey b hb v us
+      simp only [Machine.history, List.mem_cons] at hx
+      rcases hx with rfl | hx
+      · exact h1
+      · exact ih _ v h2 x hx
+
+/-- … in particular from a new orbit object (nothing bound) -/
+theorem history_reply_eq_fresh_new {V Key Lines Sat K : Type} [DecidableEq Key] (m : Machine V Key Lines Sat K)
+    (hkey : ∀ v v', m.stateKey v = m.stateKey v' →
+      ∀ f, m.propagate (m.twoline2rv (m.regen v)) f = m.propagate (m.twoline2rv (m.regen v')) f)
+    (ops : List (Op V)) (v : V) : ∀ x ∈ m.history none v ops, x.2.2 = m.toWrapper.run x.1 x.2.1 :=
+  history_reply_eq_fresh m hkey ops none v (by intro bb h; cases h)
+
+/-- the hypothesis is satisfiable and the statement has content: in the driver's machine a label-only edit (same key, new
+version) keeps the record of the old version, a key change rebuilds it -/
+example : idMachine.history none (1, 1) [Op.propagate 0, Op.edit (fun _ => (1, 2)), Op.propagate 0, Op.edit (fun _ => (2, 3)), Op.propagate 0]
+    = [((1, 1), 0, [1]), ((1, 2), 0, [1]), ((2, 3), 0, [3])] := by decide
+
+/-- The syntactic side of `hkey`, over the sets regenerated from sgp4.py and tle.py on every run: every value `Tle.from_orbit`
+reads of the orbit is a label field or is determined by what `Sgp4._state` compares (so an in-place edit of any input of the
+satellite record changes the key and the setter runs again); and the class has no member besides the four the model stands for
+(their statement lists are compared by the extractor, which refuses any other shape). -/
+theorem bind_key_covers_regen :
+    (∀ r ∈ fromOrbitReads, r ∈ labelReads ∨ ∀ k ∈ coveredBy r, k ∈ stateKeyReads)
+      ∧ sgp4Members = ["orbit", "orbit.setter", "_state", "propagate"] := by decide
 
 /-! ## Part 2: the native implementation (formulas translated from sgp4beta.py) -/
 open BeyondVerif.R
